@@ -453,7 +453,13 @@ fn file_kinds_family(rep: &mut Report) {
         rep.machinery(format!("hooks-on CLI binary missing at {}", cli::BIN));
         return;
     }
-    const KINDS: [&str; 6] = ["regular", "symlink-to-file", "symlink-to-file-followed", "deep-directory", "file-as-argument", "symlinked-directory-followed"];
+    const KINDS: [&str; 11] = [
+        "regular", "symlink-to-file", "symlink-to-file-followed", "deep-directory", "file-as-argument", "symlinked-directory-followed",
+        // directories the walk of an outer root does not enter, named as a root of their own after that outer root
+        "hidden-directory-named-after-its-parent", "ignored-directory-named-after-its-parent", "symlinked-directory-named-after-its-parent", "hidden-directory-named-before-its-parent",
+        // one source file that belongs to two crates (a symbolic link in the second crate's src)
+        "one-file-linked-into-two-crates",
+    ];
     let mut jobs = Vec::new();
     for kind in KINDS {
         for &lang in &ALL_LANGS {
@@ -486,6 +492,31 @@ fn file_kinds_family(rep: &mut Report) {
                 let p = sc.write("elsewhere/app/src/models.rs", linked.as_bytes());
                 inputs.push(p.to_string_lossy().into_owned());
             }
+            "hidden-directory-named-after-its-parent" | "hidden-directory-named-before-its-parent" => {
+                sc.write("ws/app/src/.gen/models.rs", linked.as_bytes());
+                let inner = sc.path("ws/app/src/.gen").to_string_lossy().into_owned();
+                if kind.contains("before") {
+                    inputs.insert(0, inner);
+                } else {
+                    inputs.push(inner);
+                }
+            }
+            "one-file-linked-into-two-crates" => {
+                let target = sc.write("ws/app/src/models.rs", linked.as_bytes());
+                sc.mkdir("ws/other/src");
+                let _ = std::os::unix::fs::symlink(&target, sc.path("ws/other/src/models.rs"));
+            }
+            "ignored-directory-named-after-its-parent" => {
+                sc.write("ws/.ignore", b"vendor/\n");
+                sc.write("ws/app/src/vendor/models.rs", linked.as_bytes());
+                inputs.push(sc.path("ws/app/src/vendor").to_string_lossy().into_owned());
+            }
+            "symlinked-directory-named-after-its-parent" => {
+                sc.write("shared/app/src/models.rs", linked.as_bytes());
+                sc.mkdir("ws/app/src");
+                let _ = std::os::unix::fs::symlink(sc.path("shared/app/src"), sc.path("ws/app/src/linked_dir"));
+                inputs.push(sc.path("ws/app/src/linked_dir").to_string_lossy().into_owned());
+            }
             _ => {
                 sc.write("shared/app/src/models.rs", linked.as_bytes());
                 sc.mkdir("ws/app/src");
@@ -500,11 +531,22 @@ fn file_kinds_family(rep: &mut Report) {
         args.extend([s(if *multi { "-d" } else { "-o" }), out.to_string_lossy().into_owned()]);
         args.extend(inputs);
         let r = run_cli(&args, &sc.root, &[], cli::TIMEOUT);
-        let text: String = cli::snapshot(&sc.path("out")).values().map(|v| String::from_utf8_lossy(v).into_owned()).collect::<Vec<_>>().join("\n");
-        (r.class(), r.stderr.chars().take(500).collect::<String>(), text, args)
+        let snap = cli::snapshot(&sc.path("out"));
+        let text: String = snap.values().map(|v| String::from_utf8_lossy(v).into_owned()).collect::<Vec<_>>().join("\n");
+        // multi-file mode, a file shared by two crates: each crate's output file has the items
+        let mut per_crate_missing = Vec::new();
+        if *kind == "one-file-linked-into-two-crates" && *multi && r.class() == "ok" {
+            for stem in ["app", "other"] {
+                let has = snap.iter().any(|(name, bytes)| name.to_lowercase().starts_with(stem) && String::from_utf8_lossy(bytes).split(|c: char| !c.is_alphanumeric() && c != '_').any(|t| t == "Linked"));
+                if !has {
+                    per_crate_missing.push(stem.to_string());
+                }
+            }
+        }
+        (r.class(), r.stderr.chars().take(500).collect::<String>(), text, args, per_crate_missing)
     });
     let mut judged = 0u64;
-    for ((kind, lang, multi), (class, stderr, text, argv)) in jobs.iter().zip(results.iter()) {
+    for ((kind, lang, multi), (class, stderr, text, argv, per_crate_missing)) in jobs.iter().zip(results.iter()) {
         judged += 1;
         let mode = if *multi { "multi" } else { "single" };
         let detail = |what: &str| json!({"how_the_file_is_reached": kind, "lang": lang.name(), "mode": mode, "argv": argv, "exit": class, "stderr": stderr, "output": text, "observation": what});
@@ -517,6 +559,9 @@ fn file_kinds_family(rep: &mut Report) {
             Err(_) if *multi => text.split(|c: char| !c.is_alphanumeric() && c != '_').map(String::from).collect(), // several files concatenated: token search
             Err(_) => continue,
         };
+        for stem in per_crate_missing {
+            rep.vios.add(Violation { sig: format!("C03|{}|file-kinds|annotated-item-missing-in-one-crate|kind={kind}|mode={mode}", lang.name()), detail: detail(&format!("Linked is annotated in a file of crate `{stem}` (reached through a symbolic link) and must be in that crate's output")) });
+        }
         for want in ["Plain", "Linked", "LinkedE"] {
             if !defs.iter().any(|d| d == want) {
                 rep.vios.add(Violation { sig: format!("C03|{}|file-kinds|annotated-item-missing|kind={kind}|mode={mode}", lang.name()), detail: detail(&format!("{want} is annotated and must be generated")) });
